@@ -932,7 +932,8 @@ class SgzReader(object):
         self.read_variant_headers(include_padding=True, tracefields=[segyio.tracefield.TraceField(tracefield)])
         if tracefield not in self.variant_headers:
             # Constant through the file, so stored once in the template rather than as an array
-            return np.full(self.header_entry_length_bytes // 4, self.segy_traceheader_template[tracefield], dtype=np.int32)
+            n_entries = self.tracecount if self.is_2d else self.n_ilines * self.n_xlines
+            return np.full(n_entries, self.segy_traceheader_template[tracefield], dtype=np.int32)
         return self.variant_headers[tracefield]
 
     def get_tracefield_values(self, tracefield):
